@@ -2,7 +2,13 @@ package main
 
 import (
 	"fmt"
+	"sort"
 	"strings"
+
+	"github.com/mmcloughlin/avo/ir"
+	"github.com/mmcloughlin/avo/operand"
+	"github.com/mmcloughlin/avo/reg"
+	"github.com/mmcloughlin/avo/x86"
 )
 
 func init() { props["C04"] = c04 }
@@ -48,6 +54,99 @@ func c04(c *Ctx) {
 		o.ExpectEmptyK(name, "R_wf_violation", "violation", "a form row is not well-formed", "wf")
 		o.Oblig(strings.TrimSuffix(name, ".v") + ".rows_io_ok")
 	}
+	// reported reads/writes of built instructions: self-cancelling forms with equal, aliased and
+	// distinct registers; masked forms; memory outputs
+	rng := NewRNG(c.Seed + 400)
+	ctors := readCtors(c.Repo)
+	opcIndexOf := map[string]int{}
+	for k, v := range d.OpcName {
+		opcIndexOf[v] = k
+	}
+	var names []string
+	for n := range ctors {
+		names = append(names, n)
+	}
+	sort.Strings(names)
+	cancelOpc := map[string]bool{}
+	for _, fm := range d.Forms {
+		if fm.Features&8 != 0 {
+			cancelOpc[fm.Opcode] = true
+		}
+	}
+	var ioRows []string
+	ioBase := len(o.Plan.Cases)
+	addIO := func(i *ir.Instruction) {
+		ins := "None"
+		var outs []reg.Register
+		func() {
+			defer func() { recover() }()
+			rs := i.InputRegisters()
+			var ss []string
+			for _, r := range rs {
+				ss = append(ss, cReg(r))
+			}
+			ins = "(Some " + cList(ss) + ")"
+		}()
+		outs = i.OutputRegisters()
+		var os []string
+		for _, r := range outs {
+			os = append(os, cReg(r))
+		}
+		ioRows = append(ioRows, fmt.Sprintf("(%s, %s, %s)", cInstr(i), ins, cList(os)))
+		o.AddCase(Case{Key: "reads-writes:" + i.Opcode, Desc: instrLine(i) + " reads " + ins, Input: map[string]any{"instruction": instrLine(i)}, Nontrivial: len(i.Operands) > 0})
+	}
+	for k, name := range names {
+		ci := ctors[name]
+		if !cancelOpc[ci.Opcode] && k%12 != int(c.Seed)%12 {
+			continue
+		}
+		coll := reg.NewCollection()
+		for _, df := range ci.Doc {
+			var ops []operand.Op
+			okf := true
+			for _, tn := range df[1:] {
+				ss := samplesFor(strings.ToUpper(tn), rng, coll)
+				if len(ss) == 0 {
+					okf = false
+					break
+				}
+				ops = append(ops, Pick(rng, ss))
+			}
+			if !okf {
+				continue
+			}
+			variants := [][]operand.Op{ops}
+			if cancelOpc[ci.Opcode] && len(ops) >= 2 {
+				if r0, ok := ops[0].(reg.Register); ok {
+					same := append([]operand.Op{r0, r0}, ops[2:]...)
+					variants = append(variants, same)
+					if g, ok := r0.(reg.GP); ok && r0.Size() == 1 {
+						if v := reg.ToVirtual(r0); v != nil {
+							variants = append(variants, append([]operand.Op{g.As8L(), g.As8H()}, ops[2:]...))
+						}
+						variants = append(variants, append([]operand.Op{reg.AL, reg.AH}, ops[2:]...), append([]operand.Op{reg.BH, reg.BL}, ops[2:]...))
+					}
+				}
+			}
+			for _, v := range variants {
+				if i, err, _ := x86.VerifBuild(opcIndexOf[ci.Opcode], ci.Suffixes, v); err == nil && i != nil {
+					addIO(i)
+				}
+			}
+		}
+	}
+	{
+		var b strings.Builder
+		b.WriteString(formsHeader)
+		fmt.Fprintf(&b, "Definition iocases : list io_case := %s.\n", cListNL(ioRows))
+		fmt.Fprintf(&b, "Definition R_io_mismatch := Eval vm_compute in List.map (N.add %d) (idx_where (fun c => negb (io_agree c)) iocases).\nPrint R_io_mismatch.\n", ioBase)
+		fmt.Fprintf(&b, "Definition R_reads_violation := Eval vm_compute in List.map (N.add %d) (idx_where (fun c => negb (io_impl_ok c)) iocases).\nPrint R_reads_violation.\n", ioBase)
+		o.WriteFile("IO.v", b.String())
+		files = append(files, "IO.v")
+		o.ExpectEmpty("IO.v", "R_io_mismatch", "mismatch", "model of InputRegisters/OutputRegisters vs the implementation on built instructions")
+		o.ExpectEmptyK("IO.v", "R_reads_violation", "violation", "an instruction does not report a register of an input operand (or an address register of a memory output) as read, or a register output as written", "reads")
+	}
+	o.Plan.Stats["reads_writes_instances"] = len(ioRows)
 	o.Stage(files...)
 	o.Plan.Rule = "all rows of the form table (x86/zoptab.go dumped through the verif overlay), exhaustively; a sample of rows is written out as cases"
 	o.Plan.Stats["forms"] = n
